@@ -10,6 +10,7 @@
 package p2ptls
 
 import (
+	"bytes"
 	gocrypto "crypto"
 	"crypto/ecdsa"
 	"crypto/elliptic"
@@ -174,6 +175,14 @@ func PubKeyFromCertChain(chain []*x509.Certificate) (crypto.PubKey, error) {
 	}
 	if _, err := cert.Verify(x509.VerifyOptions{Roots: pool}); err != nil {
 		return nil, errors.Wrap(err, "certificate verification failed")
+	}
+	// Verify does not check the signature of a certificate that is itself a
+	// root of the pool: check explicitly that the certificate is self-signed.
+	if !bytes.Equal(cert.RawIssuer, cert.RawSubject) {
+		return nil, errors.New("certificate is not self-signed: issuer differs from subject")
+	}
+	if err := cert.CheckSignature(cert.SignatureAlgorithm, cert.RawTBSCertificate, cert.Signature); err != nil {
+		return nil, errors.Wrap(err, "certificate is not self-signed")
 	}
 
 	var sk signedKey
